@@ -4,6 +4,9 @@
   (Herlihy–Wing), given the per-block key-order results `ResumeKU`.
 
   Linearization points: an operation takes effect in the scheduler step in which it returns.
+  The step-level assembly (`stretch_lin`, `step_lininv_gen`) is generic in the provider of the
+  abstract effects (`StepEff`) and already covers Delete, whose linearization point is the
+  stretch that removes the key from its leaf; `CLinDel.lean` instantiates it with `KBlocks`.
 -/
 import Gobptree.Proofs.CLinInv
 
@@ -27,9 +30,19 @@ def SigEffect (lt : K → K → Bool) (t : Nat) (k : Kont K V) (s : St K V) (new
       (∀ r, fl = .done r → s'.tree.abs = Spec.update lt s.tree.abs key f) ∧
       (∀ p, fl = .park p → s'.tree.abs = s.tree.abs) ∧
       (∀ arg, Ev.note t (.cb arg) ∈ new → arg = Spec.lookup lt s.tree.abs key)
+  | .del key =>
+    if postK k = true then s'.tree.abs = s.tree.abs
+    else (postLeaf fl → s'.tree.abs = Spec.erase lt s.tree.abs key) ∧ (¬ postLeaf fl → s'.tree.abs = s.tree.abs)
+
+theorem resume_delLeft_notPost (P : Params K) (t : Nat) (s : St K V) (key : K) (frames : List Frame)
+    (node index left root : Nat) : ¬ postLeaf (resume P t s (.delLeft key frames node index left root)).2 := by
+  simp only [resume]
+  split
+  · split <;> exact id
+  · exact id
 
 theorem sigEffect_of_abs (lt : K → K → Bool) (P : Params K) (t : Nat) (s : St K V) (k : Kont K V)
-    (new : List (Ev K V)) (hk : isDelK k = false) (h0 : s.evs = [])
+    (new : List (Ev K V)) (h0 : s.evs = [])
     (hnew : (resume P t s k).1.evs = new)
     (h : AbsEffect lt t k s (resume P t s k).1 (resume P t s k).2) :
     SigEffect lt t k s new (resume P t s k).1 (resume P t s k).2 := by
@@ -64,29 +77,30 @@ theorem sigEffect_of_abs (lt : K → K → Bool) (P : Params K) (t : Nat) (s : S
   | upCallback key f leaf arg => exact h
   | hop cur next => exact h
   | paused => exact h
-  | delTree key => cases hk
-  | delRoot key r => cases hk
-  | delLeft key frames node index left root => cases hk
-  | delChild key frames node index left child root => cases hk
-  | delRight key rest fr right root => cases hk
+  | delTree key =>
+    have h' : (resume P t s (.delTree key)).1.tree.abs = s.tree.abs := h
+    exact ⟨fun hp => absurd hp id, fun _ => h'⟩
+  | delRoot key r => exact h
+  | delLeft key frames node index left root =>
+    have h' : (resume P t s (.delLeft key frames node index left root)).1.tree.abs = s.tree.abs := h
+    exact ⟨fun hp => absurd hp (resume_delLeft_notPost P t s key frames node index left root), fun _ => h'⟩
+  | delChild key frames node index left child root => exact h
+  | delRight key rest fr right root => exact h
 
-/-- everything the linearizability proof needs of one stretch of a continuation -/
-theorem resume_facts (RU : ResumeKU K V) (lt : K → K → Bool) (P : Params K) (t : Nat) (s : St K V) (k : Kont K V)
-    (H : List Lk) (hole : Option Nat)
-    (hdel : isDelK k = false) (hkp : KParams lt P) (hpre : Pre P hole s) (hko : KontOk s.tree k)
-    (hcur : CursorOk s.tree (isHopK k) s.cursor) (hkpre : KontPre s.cursor k) (hcov : Covers H s.cursor k)
-    (hord : OrdTree lt s.tree) (hkpos : KPos lt s.tree k) :
+/-- everything the linearizability proof needs of one stretch of a continuation, given its
+    abstract effect (on the same state with an empty log) -/
+theorem resume_facts_of_eff (lt : K → K → Bool) (P : Params K) (t : Nat) (s : St K V) (k : Kont K V)
+    (hE : AbsEffect lt t k { s with evs := [] } (resume P t { s with evs := [] } k).1 (resume P t { s with evs := [] } k).2) :
     ∃ new, (resume P t s k).1.evs = new ++ s.evs ∧ new.all (quietB t) = true ∧
       FlowR t k new (resume P t s k).2 ∧ SigEffect lt t k s new (resume P t s k).1 (resume P t s k).2 := by
   let s0 : St K V := { s with evs := [] }
   have hs : s = s0.addEvs s.evs := by cases s; rfl
   have hres : resume P t s k = addR (resume P t s0 k) s.evs := by
-    have := resume_addEvs P t s0 s.evs k hdel
+    have := resume_addEvs P t s0 s.evs k
     rw [← hs] at this; exact this
-  obtain ⟨new, e, q, fl⟩ := resume_tr P t s0 k hdel
+  obtain ⟨new, e, q, fl⟩ := resume_tr P t s0 k
   have e' : (resume P t s0 k).1.evs = new := by rw [e]; exact List.append_nil _
-  obtain ⟨hpost, _⟩ := RU lt P t s0 k H hole hdel hkp ⟨hpre.tree, hpre.order, hpre.pad⟩ hko hcur hkpre hcov hord hkpos
-  have heff := sigEffect_of_abs lt P t s0 k new hdel rfl e' hpost.eff
+  have heff := sigEffect_of_abs lt P t s0 k new rfl e' hE
   refine ⟨new, ?_, q, ?_, ?_⟩
   · rw [hres]; show (resume P t s0 k).1.evs ++ s.evs = new ++ s.evs; rw [e']
   · rw [hres]; exact fl
@@ -123,9 +137,21 @@ theorem SigEffect.up_some {lt : K → K → Bool} {t : Nat} {k : Kont K V} {s s'
     s'.tree.abs = Spec.update lt s.tree.abs key f ∧ arg = Spec.lookup lt s.tree.abs key := by
   unfold SigEffect at h; rw [hs] at h; simp only [hc] at h; exact h
 
-/-- a stretch that parks does not change the abstract map -/
+theorem SigEffect.del_post {lt : K → K → Bool} {t : Nat} {k : Kont K V} {s s' : St K V} {new : List (Ev K V)}
+    {fl : Flow K V} {key : K} (hs : kontSig k = .del key) (hp : postK k = true)
+    (h : SigEffect lt t k s new s' fl) : s'.tree.abs = s.tree.abs := by
+  unfold SigEffect at h; rw [hs] at h; simp only [] at h; rw [if_pos hp] at h; exact h
+
+theorem SigEffect.del_pre {lt : K → K → Bool} {t : Nat} {k : Kont K V} {s s' : St K V} {new : List (Ev K V)}
+    {fl : Flow K V} {key : K} (hs : kontSig k = .del key) (hp : postK k = false)
+    (h : SigEffect lt t k s new s' fl) :
+    (postLeaf fl → s'.tree.abs = Spec.erase lt s.tree.abs key) ∧ (¬ postLeaf fl → s'.tree.abs = s.tree.abs) := by
+  unfold SigEffect at h; rw [hs] at h; simp only [] at h
+  rw [if_neg (by rw [hp]; exact Bool.false_ne_true)] at h; exact h
+
+/-- a stretch that parks before the key of a Delete is removed does not change the abstract map -/
 theorem SigEffect.park {lt : K → K → Bool} {t : Nat} {k : Kont K V} {s s' : St K V} {new : List (Ev K V)}
-    {p : Park K V} (hc : cbArg k = none) (h : SigEffect lt t k s new s' (.park p)) :
+    {p : Park K V} (hc : cbArg k = none) (hq : postP p = false) (h : SigEffect lt t k s new s' (.park p)) :
     s'.tree.abs = s.tree.abs := by
   cases hs : kontSig k with
   | ro sc key =>
@@ -134,6 +160,14 @@ theorem SigEffect.park {lt : K → K → Bool} {t : Nat} {k : Kont K V} {s s' : 
     | false => exact (h.ro_false hs).1
   | up key f y => exact (h.up_none hs hc).2.1 p rfl
   | other => exact h.other hs
+  | del key =>
+    cases hp : postK k with
+    | true => exact h.del_post hs hp
+    | false =>
+      refine (h.del_pre hs hp).2 ?_
+      intro hpl
+      rw [(postLeaf_park p).1 hpl] at hq
+      cases hq
 
 theorem DoneR.up {t : Nat} {k : Kont K V} {new : List (Ev K V)} {res : Res K V} {key : K} {f : Option V → V}
     {y : Option Bool} (hs : kontSig k = .up key f y) (h : DoneR t k new res) :
@@ -146,24 +180,42 @@ theorem DoneR.ro_false {t : Nat} {k : Kont K V} {new : List (Ev K V)} {res : Res
     (hs : kontSig k = .ro false key) (h : DoneR t k new res) : ∃ v, res = .found v := by
   unfold DoneR at h; rw [hs] at h; exact h
 
+theorem DoneR.del {t : Nat} {k : Kont K V} {new : List (Ev K V)} {res : Res K V} {key : K}
+    (hs : kontSig k = .del key) (h : DoneR t k new res) : res = .ok := by
+  unfold DoneR at h; rw [hs] at h; exact h
+
 theorem cbArg_none_of_sig {k : Kont K V} {key : K} {f : Option V → V} {y : Option Bool}
     (hs : kontSig k = .up key f y) (hy : y ≠ some true) : cbArg k = none := by
   cases k <;> first | rfl | skip
   simp only [kontSig, KSig.up.injEq] at hs
   exact absurd hs.2.2.symm hy
 
+theorem postK_false_of_sig {k : Kont K V} (h : ∀ key, kontSig k = .del key → False) : postK k = false := by
+  cases hp : postK k with
+  | false => rfl
+  | true =>
+    obtain ⟨key, hk⟩ := postK_sig hp
+    exact absurd hk (h key)
+
 theorem KontFor.of_sig {cop : COp K V} {k k' : Kont K V} (hs : kontSig k' = kontSig k)
-    (hne : kontSig k = .other → False) (h : KontFor cop k) : KontFor cop k' := by
+    (h : KontFor cop k) : KontFor cop k' := by
+  cases cop <;> exact hs.trans h
+
+theorem KontFor.del_eq {cop : COp K V} {k : Kont K V} {key : K} (hs : kontSig k = .del key)
+    (h : KontFor cop k) : cop = .del key := by
   cases cop with
-  | ins key v => exact hs.trans h
-  | upd key g b => exact hs.trans h
-  | get key => exact hs.trans h
-  | ns key => exact hs.trans h
-  | del key => trivial
-  | scan => exact absurd h.1 hne
-  | pair => exact absurd h.1 hne
-  | close => exact absurd h.1 hne
-  | pause => exact absurd h.1 hne
+  | del key' =>
+    have : kontSig k = .del key' := h
+    rw [hs] at this
+    cases this; rfl
+  | ins key' v => have : kontSig k = _ := h; rw [hs] at this; cases this
+  | upd key' g b => have : kontSig k = _ := h; rw [hs] at this; cases this
+  | get key' => have : kontSig k = _ := h; rw [hs] at this; cases this
+  | ns key' => have : kontSig k = _ := h; rw [hs] at this; cases this
+  | scan => have : kontSig k = _ := h; rw [hs] at this; cases this
+  | pair => have : kontSig k = _ := h; rw [hs] at this; cases this
+  | close => have : kontSig k = _ := h; rw [hs] at this; cases this
+  | pause => have : kontSig k = _ := h; rw [hs] at this; cases this
 
 /-! ### the first stretch of a step that resumes a continuation -/
 
@@ -176,69 +228,119 @@ theorem stretch_lin {s s' : St K V} {fl : Flow K V} {new : List (Ev K V)} {k : K
     {pc : Nat} {cop : COp K V}
     (b : Base lt init progs t st0 cb0 s.tree.abs s.evs h)
     (hfresh : ∀ i, pc < i → (linState lt init h).status t i = .fresh)
-    (hcop : (progs t)[pc]? = some cop) (hnd : cop.isDel = false)
-    (hbk : KBk (linState lt init h) ((hx progs s.evs).cb t) t pc cop k)
+    (hcop : (progs t)[pc]? = some cop)
+    (hbk : KBk (linState lt init h) ((hx progs s.evs).cb t) t pc cop k (postK k))
     (e : s'.evs = new ++ s.evs) (q : new.all (quietB t) = true)
     (hfl : FlowR t k new fl) (heff : SigEffect lt t k s new s' fl) (hnp : fl ≠ .panic) :
     ∃ h', LoopI lt init progs t st0 cb0 s' fl pc h' := by
   have b' := b.quiet new q
   obtain ⟨_, _, hcbt⟩ := hx_quiet progs t s.evs new q
   obtain ⟨hst, hkf, hcb⟩ := hbk
-  -- the stretch leaves the abstract map alone and completes no map operation
-  have same : s'.tree.abs = s.tree.abs → (∀ r, fl = .done r → opOf cop = none) →
-      (∀ p, fl = .park p → ParkBk (linState lt init h) ((hx progs s'.evs).cb t) t pc (progs t)[pc]? p) →
+  have hinvk : postK k = false → ∀ op, opOf cop = some op → (linState lt init h).status t pc = .invoked op := by
+    intro hp op ho
+    have := hst op ho
+    rw [hp] at this; exact this
+  have hlink : postK k = true → ∀ op, opOf cop = some op →
+      (linState lt init h).status t pc = .linearized op .done := by
+    intro hp op ho
+    have := hst op ho
+    rw [hp] at this; exact this
+  -- the stretch leaves the abstract map alone and adds no linearization point
+  have same : s'.tree.abs = s.tree.abs →
+      FlowBk (linState lt init h) ((hx progs s'.evs).cb t) t pc (progs t)[pc]? fl →
+      ∃ h', LoopI lt init progs t st0 cb0 s' fl pc h' :=
+    fun habs hf => ⟨h, ⟨by rw [habs, e]; exact b', hfresh, hf⟩⟩
+  -- the stretch contains the linearization point of the operation
+  have linpt : ∀ (op : Op K V), postK k = false → opOf cop = some op →
+      s'.tree.abs = (Spec.step lt s.tree.abs op).1 →
+      (∀ st' : LinState K V, st'.status t pc = .linearized op (Spec.step lt s.tree.abs op).2 →
+        FlowBk st' ((hx progs s'.evs).cb t) t pc (progs t)[pc]? fl) →
       ∃ h', LoopI lt init progs t st0 cb0 s' fl pc h' := by
-    intro habs hdone hpark
-    refine ⟨h, ⟨by rw [habs, e]; exact b', hfresh, ?_⟩⟩
-    cases fl with
-    | panic => trivial
-    | park p => exact hpark p rfl
-    | done r =>
-      intro cop' op hc ho
-      rw [hcop] at hc; cases hc
-      rw [hdone r rfl] at ho; cases ho
+    intro op hp ho habs hF
+    obtain ⟨b2, hs2, hoth2⟩ := b'.lin (hinvk hp op ho)
+    refine ⟨_, ⟨by rw [habs, e]; exact b2, ?_, hF _ hs2⟩⟩
+    intro i hi
+    rw [hoth2 i (by omega)]
+    exact hfresh i hi
   cases fl with
   | panic => exact absurd rfl hnp
   | park p =>
-    obtain ⟨hne, hcn, k', hk', hsig, hcb'⟩ := hfl
-    apply same (heff.park hcn) (fun r hr => by cases hr)
-    intro p' hp'
-    cases hp'
-    have hb : KBk (linState lt init h) ((hx progs s'.evs).cb t) t pc cop k' := by
-      refine ⟨hst, hkf.of_sig hsig hne, ?_⟩
+    obtain ⟨hpp, hne, hcn, k', hk', hsig, hcb'⟩ := hfl
+    have hkf' : KontFor cop k' := hkf.of_sig hsig
+    have mk : ∀ (st' : LinState K V) (post' : Bool),
+        (∀ op, opOf cop = some op → st'.status t pc = if post' then .linearized op .done else .invoked op) →
+        KBk st' ((hx progs s'.evs).cb t) t pc cop k' post' := by
+      intro st' post' hs'
+      refine ⟨hs', hkf', ?_⟩
       intro arg ha
       rw [e, hcbt, hcb' arg ha]
-    cases p with
-    | start => cases hk'
-    | finished => cases hk'
-    | want l k'' => cases hk'; exact ⟨cop, hcop, hb⟩
-    | yielded k'' => cases hk'; exact ⟨cop, hcop, hb⟩
+    cases hq : postP p with
+    | false =>
+      have hpk : postK k = false := by
+        cases hpk : postK k with
+        | false => rfl
+        | true => have := hpp hpk; rw [hq] at this; cases this
+      apply same (heff.park hcn hq)
+      have hb := mk (linState lt init h) false (by intro op ho; exact hinvk hpk op ho)
+      cases p with
+      | start => cases hk'
+      | finished => cases hk'
+      | want l k'' =>
+        cases hk'
+        have hq' : postK k' = false := hq
+        exact ⟨cop, hcop, by rw [hq']; exact hb⟩
+      | yielded k'' => cases hk'; exact ⟨cop, hcop, hb⟩
+    | true =>
+      cases p with
+      | start => cases hq
+      | finished => cases hq
+      | yielded k'' => cases hq
+      | want l k'' =>
+        cases hk'
+        have hq' : postK k' = true := hq
+        obtain ⟨key, hsk'⟩ := postK_sig hq'
+        have hsk : kontSig k = .del key := by rw [← hsig]; exact hsk'
+        have hc := hkf.del_eq hsk
+        subst hc
+        cases hpk : postK k with
+        | true =>
+          apply same (heff.del_post hsk hpk)
+          exact ⟨_, hcop, by rw [hq']; exact mk _ true (by intro op ho; exact hlink hpk op ho)⟩
+        | false =>
+          apply linpt (.delete key) hpk rfl ((heff.del_pre hsk hpk).1 ((postLeaf_park _).2 hq))
+          intro st' hs'
+          refine ⟨_, hcop, ?_⟩
+          rw [hq']
+          apply mk st' true
+          intro op ho
+          cases ho
+          exact hs'
   | done r =>
     have hdr : DoneR t k new r := hfl
-    -- a map operation completes: its linearization point
-    have linpt : ∀ (op : Op K V), opOf cop = some op →
-        s'.tree.abs = (Spec.step lt s.tree.abs op).1 →
-        outOf cop r ((hx progs s'.evs).cb t) = some (Spec.step lt s.tree.abs op).2 →
-        ∃ h', LoopI lt init progs t st0 cb0 s' (.done r) pc h' := by
-      intro op ho habs hout
-      obtain ⟨b2, hs2, hoth2⟩ := b'.lin (hst op ho)
-      refine ⟨_, ⟨by rw [habs, e]; exact b2, ?_, ?_⟩⟩
-      · intro i hi
-        rw [hoth2 i (by omega)]
-        exact hfresh i hi
-      · intro cop' op' hc ho'
-        rw [hcop] at hc; cases hc
-        rw [ho] at ho'; cases ho'
-        exact ⟨_, hs2, hout⟩
+    have doneBk : ∀ (op : Op K V) (out : Out V), opOf cop = some op →
+        outOf cop r ((hx progs s'.evs).cb t) = some out →
+        ∀ st' : LinState K V, st'.status t pc = .linearized op out →
+          FlowBk st' ((hx progs s'.evs).cb t) t pc (progs t)[pc]? (.done r) := by
+      intro op out ho hout st' hs' cop' op' hc ho'
+      rw [hcop] at hc; cases hc
+      rw [ho] at ho'; cases ho'
+      exact ⟨out, hs', hout⟩
+    have noop : opOf cop = none → ∀ st' : LinState K V,
+        FlowBk st' ((hx progs s'.evs).cb t) t pc (progs t)[pc]? (.done r) := by
+      intro hn st' cop' op' hc ho'
+      rw [hcop] at hc; cases hc
+      rw [hn] at ho'; cases ho'
     cases cop with
     | ins key v =>
       have hsig : kontSig k = .up key (fun _ => v) none := hkf
+      have hpk := postK_false_of_sig (k := k) (by intro key' h; rw [hsig] at h; cases h)
       have hcn := cbArg_none_of_sig hsig (by intro h; cases h)
       have hres := (hdr.up hsig).1
       subst hres
-      exact linpt (.insert key v) rfl ((heff.up_none hsig hcn).1 _ rfl) rfl
+      exact linpt (.insert key v) hpk rfl ((heff.up_none hsig hcn).1 _ rfl) (doneBk _ _ rfl rfl)
     | upd key g y =>
       have hsig : kontSig k = .up key g (some y) := hkf
+      have hpk := postK_false_of_sig (k := k) (by intro key' h; rw [hsig] at h; cases h)
       have hres := (hdr.up hsig).1
       subst hres
       cases hca : cbArg k with
@@ -251,32 +353,40 @@ theorem stretch_lin {s s' : St K V} {fl : Flow K V} {new : List (Ev K V)} {k : K
         | none => rw [hl] at hsome; cases hsome
         | some arg =>
           have harg := hC arg (lastCb_mem t new arg hl)
-          apply linpt (.update key g) rfl (hA _ rfl)
+          apply linpt (.update key g) hpk rfl (hA _ rfl) (doneBk _ _ rfl ?_)
           rw [e, hcbt, hl, harg]
           rfl
       | some arg =>
         obtain ⟨hA, harg⟩ := heff.up_some hsig hca
         have := (hdr.up hsig).2
         rw [hca] at this
-        apply linpt (.update key g) rfl hA
+        apply linpt (.update key g) hpk rfl hA (doneBk _ _ rfl ?_)
         rw [e, hcbt, this, hcb arg hca, harg]
         rfl
     | get key =>
       have hsig : kontSig k = .ro false key := hkf
+      have hpk := postK_false_of_sig (k := k) (by intro key' h; rw [hsig] at h; cases h)
       obtain ⟨v, hv⟩ := hdr.ro_false hsig
       subst hv
       obtain ⟨hA, hB⟩ := heff.ro_false hsig
-      apply linpt (.search key) rfl hA
+      apply linpt (.search key) hpk rfl hA (doneBk _ _ rfl ?_)
       rw [hB v rfl]
       rfl
-    | del key => cases hnd
+    | del key =>
+      have hsig : kontSig k = .del key := hkf
+      have hres := hdr.del hsig
+      subst hres
+      cases hpk : postK k with
+      | true => exact same (heff.del_post hsig hpk) (doneBk (.delete key) .done rfl rfl _ (hlink hpk _ rfl))
+      | false =>
+        exact linpt (.delete key) hpk rfl ((heff.del_pre hsig hpk).1 trivial) (doneBk _ _ rfl rfl)
     | ns key =>
       have hsig : kontSig k = .ro true key := hkf
-      exact same (heff.ro_true hsig) (fun _ _ => rfl) (fun p hp => by cases hp)
-    | scan => exact same (heff.other hkf.1) (fun _ _ => rfl) (fun p hp => by cases hp)
-    | pair => exact same (heff.other hkf.1) (fun _ _ => rfl) (fun p hp => by cases hp)
-    | close => exact same (heff.other hkf.1) (fun _ _ => rfl) (fun p hp => by cases hp)
-    | pause => exact same (heff.other hkf.1) (fun _ _ => rfl) (fun p hp => by cases hp)
+      exact same (heff.ro_true hsig) (noop rfl _)
+    | scan => exact same (heff.other hkf) (noop rfl _)
+    | pair => exact same (heff.other hkf) (noop rfl _)
+    | close => exact same (heff.other hkf) (noop rfl _)
+    | pause => exact same (heff.other hkf) (noop rfl _)
 
 end Stretch
 
@@ -294,19 +404,19 @@ theorem ThreadBk.congr {st st' : LinState K V} {cbt cbt' : Option (Option V)} {t
   subst hc
   refine ⟨fun i hi => by rw [hs]; exact h.fresh i hi, ?_⟩
   have hp := h.park
-  have hk : ∀ cop k, KBk st cbt' t th.pc cop k → KBk st' cbt' t th.pc cop k :=
-    fun cop k hb => ⟨fun op ho => by rw [hs]; exact hb.1 op ho, hb.2.1, hb.2.2⟩
+  have hk : ∀ cop k post, KBk st cbt' t th.pc cop k post → KBk st' cbt' t th.pc cop k post :=
+    fun cop k post hb => ⟨fun op ho => by rw [hs]; exact hb.1 op ho, hb.2.1, hb.2.2⟩
   cases hpk : th.park with
   | start => rw [hpk] at hp; exact ⟨hp.1, by rw [hs]; exact hp.2⟩
   | finished => trivial
   | want l k =>
     rw [hpk] at hp
     obtain ⟨cop, h1, h2⟩ := hp
-    exact ⟨cop, h1, hk cop k h2⟩
+    exact ⟨cop, h1, hk cop k _ h2⟩
   | yielded k =>
     rw [hpk] at hp
     obtain ⟨cop, h1, h2⟩ := hp
-    exact ⟨cop, h1, hk cop k h2⟩
+    exact ⟨cop, h1, hk cop k _ h2⟩
 
 theorem progOf_of_get {c : Config K V} {t : Nat} {th : Thread K V} (ht : c.threads[t]? = some th) :
     progOf c t = th.prog := by
@@ -322,12 +432,19 @@ theorem init_lininv (lt : K → K → Bool) (P : Params K) (tree : Tree K V) (pr
   subst e
   exact ⟨fun _ _ => rfl, rfl, rfl⟩
 
-/-- **a scheduler step keeps the linearizability invariant** -/
-theorem step_lininv (RU : ResumeKU K V) (lt : K → K → Bool) (init : List (K × V)) (c c' : Config K V) (t : Nat)
-    (hstep : c.step t = some c') (hk : KCInv lt c) (h : List (HEv K V)) (hl : LinInv lt init c h) :
-    ∃ h', LinInv lt init c' h' := by
+/-- the abstract effect of the stretch thread `t` is about to run (on the state with an empty
+    log: the code does not read the log) -/
+def StepEff (lt : K → K → Bool) (c : Config K V) (t : Nat) : Prop :=
+  ∀ th k, c.threads[t]? = some th → th.enabled c = true → (th.park = .yielded k ∨ ∃ l, th.park = .want l k) →
+    AbsEffect lt t k { stepSt c t th with evs := [] }
+      (resume c.P t { stepSt c t th with evs := [] } k).1 (resume c.P t { stepSt c t th with evs := [] } k).2
+
+/-- **a scheduler step keeps the linearizability invariant**, given the abstract effect of
+    the stepping thread's stretch -/
+theorem step_lininv_gen (lt : K → K → Bool) (init : List (K × V)) (c c' : Config K V) (t : Nat)
+    (hstep : c.step t = some c') (hinv : CInv c) (hE : StepEff lt c t) (h : List (HEv K V))
+    (hl : LinInv lt init c h) : ∃ h', LinInv lt init c' h' := by
   obtain ⟨th, ht, hen, r, hr, hc'⟩ := step_shape hstep
-  have hinv := hk.cinv
   have halive' : c'.dead = false := (step_cinv blocks_ok c c' t hstep hinv).1.alive
   have hdied : r.2.2 = false := by
     rw [hc'] at halive'
@@ -336,7 +453,6 @@ theorem step_lininv (RU : ResumeKU K V) (lt : K → K → Bool) (init : List (K 
   have htm : th ∈ c.threads := List.mem_of_getElem? ht
   have hS := hinv.s
   have hok := hS.cfg th htm
-  have hsok := hS.threads th htm
   have hnf := enabled_not_finished hen
   have hprog : th.prog = progOf c t := (progOf_of_get ht).symm
   have hbk := hl.thr t th ht
@@ -363,34 +479,16 @@ theorem step_lininv (RU : ResumeKU K V) (lt : K → K → Bool) (init : List (K 
   have main : ∃ h', FinalI lt init (progOf c) t (linState lt init h) (hxRun c).cb r h' := by
     have resumed : ∀ k, (th.park = .yielded k ∨ ∃ l, th.park = .want l k) →
         r = threadLoop t th th.prog.length (resume c.P t (stepSt c t th) k).1 (resume c.P t (stepSt c t th) k).2 th.pc →
-        CursorOk c.tree (isHopK k) th.cursor →
+        (∃ cop, th.prog[th.pc]? = some cop ∧ KBk (linState lt init h) ((hxRun c).cb t) t th.pc cop k (postK k)) →
         ∃ h', FinalI lt init (progOf c) t (linState lt init h) (hxRun c).cb r h' := by
-      intro k hpk hrk hcur
-      have hkpos : KPos lt c.tree k := by
-        have := hk.kinv.pos th htm
-        rcases hpk with hp | ⟨l, hp⟩ <;> rw [hp] at this <;> exact this
-      have hdel : isDelK k = false := by
-        have := (hk.nodel th htm).1
-        rcases hpk with hp | ⟨l, hp⟩ <;> rw [hp] at this <;> exact this
-      have hko : KontOk c.tree k := by
-        have := hsok.1
-        rcases hpk with hp | ⟨l, hp⟩ <;> rw [hp] at this <;> exact this
-      have hkpre : KontPre th.cursor k := by
-        have := hok.2.1
-        rcases hpk with hp | ⟨l, hp⟩ <;> rw [hp] at this <;> exact this
-      have hcov := covers_of_ok (s0 := stepSt c t th) rfl hok k hpk
-      obtain ⟨new, e, q, hfl, heff⟩ := resume_facts RU lt c.P t (stepSt c t th) k (stepHeld th) (holeOf c.threads)
-        hdel hk.kp ⟨hS.tree, hS.order, hS.pad⟩ hko hcur hkpre hcov hk.kinv.ord hkpos
+      intro k hpk hrk hkb
+      obtain ⟨new, e, q, hfl, heff⟩ := resume_facts_of_eff lt c.P t (stepSt c t th) k (hE th k ht hen hpk)
       have hnp : (resume c.P t (stepSt c t th) k).2 ≠ .panic := by
         intro hp
         rw [hrk, hp, threadLoop_panic] at hdied
         cases hdied
-      obtain ⟨cop, hcop, hkb⟩ : ∃ cop, th.prog[th.pc]? = some cop ∧
-          KBk (linState lt init h) ((hxRun c).cb t) t th.pc cop k := by
-        have := hbk.park
-        rcases hpk with hp | ⟨l, hp⟩ <;> rw [hp] at this <;> exact this
-      have hnd : cop.isDel = false := (hk.nodel th htm).2 cop (List.mem_of_getElem? hcop)
-      obtain ⟨h1, hl1⟩ := stretch_lin (pc := th.pc) base1 hbk.fresh (by rw [← hprog]; exact hcop) hnd
+      obtain ⟨cop, hcop, hkb⟩ := hkb
+      obtain ⟨h1, hl1⟩ := stretch_lin (pc := th.pc) base1 hbk.fresh (by rw [← hprog]; exact hcop)
         (by rw [hcb1]; exact hkb) e q hfl heff hnp
       rw [hrk]
       exact loop_lin th hprog _ _ _ _ h1 hl1
@@ -418,19 +516,19 @@ theorem step_lininv (RU : ResumeKU K V) (lt : K → K → Bool) (init : List (K 
         exact loop_lin th hprog _ _ _ _ h1 hl1
     | want l k =>
       simp only
-      have hcur : CursorOk c.tree (isHopK k) th.cursor := by
-        have := hsok.2; rw [hp, isHop_want] at this; exact this
-      have := resumed k (Or.inr ⟨l, hp⟩) (by rw [hr]; unfold runThread; rw [hp]) hcur
+      have hkb := hbk.park
+      rw [hp] at hkb
+      have := resumed k (Or.inr ⟨l, hp⟩) (by rw [hr]; unfold runThread; rw [hp]) hkb
       rw [hr] at this; unfold runThread at this; rw [hp] at this
       exact this
     | yielded k =>
       simp only
       have hlock : kontLock k = none := by have := hok.2.2; rw [hp] at this; exact this
-      have hhop : isHopK k = false := by
+      have hpost : postK k = false := by
         cases k <;> first | rfl | (simp [kontLock] at hlock)
-      have hcur : CursorOk c.tree (isHopK k) th.cursor := by
-        have := hsok.2; rw [hp, isHop_yielded] at this; rw [hhop]; exact this
-      have := resumed k (Or.inl hp) (by rw [hr]; unfold runThread; rw [hp]) hcur
+      have hkb := hbk.park
+      rw [hp] at hkb
+      have := resumed k (Or.inl hp) (by rw [hr]; unfold runThread; rw [hp]) (by rw [hpost]; exact hkb)
       rw [hr] at this; unfold runThread at this; rw [hp] at this
       exact this
   obtain ⟨h', hfin⟩ := main
@@ -448,6 +546,44 @@ theorem step_lininv (RU : ResumeKU K V) (lt : K → K → Bool) (init : List (K 
     · apply (hl.thr j b hjo).congr
       · intro i; exact hfin.base.oth j i hne
       · rw [hrun']; exact hfin.base.ocb j hne
+
+/-- the abstract effect of a step in a configuration without Delete, from `ResumeKU` -/
+theorem stepEff_nodel (RU : ResumeKU K V) (lt : K → K → Bool) (c : Config K V) (t : Nat) (hk : KCInv lt c) :
+    StepEff lt c t := by
+  intro th k ht hen hpk
+  have hinv := hk.cinv
+  have htm : th ∈ c.threads := List.mem_of_getElem? ht
+  have hS := hinv.s
+  have hok := hS.cfg th htm
+  have hsok := hS.threads th htm
+  have hkpos : KPos lt c.tree k := by
+    have := hk.kinv.pos th htm
+    rcases hpk with hp | ⟨l, hp⟩ <;> rw [hp] at this <;> exact this
+  have hdel : isDelK k = false := by
+    have := (hk.nodel th htm).1
+    rcases hpk with hp | ⟨l, hp⟩ <;> rw [hp] at this <;> exact this
+  have hko : KontOk c.tree k := by
+    have := hsok.1
+    rcases hpk with hp | ⟨l, hp⟩ <;> rw [hp] at this <;> exact this
+  have hkpre : KontPre th.cursor k := by
+    have := hok.2.1
+    rcases hpk with hp | ⟨l, hp⟩ <;> rw [hp] at this <;> exact this
+  have hcov := covers_of_ok (s0 := stepSt c t th) rfl hok k hpk
+  have hcur : CursorOk c.tree (isHopK k) th.cursor := by
+    rcases hpk with hp | ⟨l, hp⟩
+    · have hlock : kontLock k = none := by have := hok.2.2; rw [hp] at this; exact this
+      have hhop : isHopK k = false := by
+        cases k <;> first | rfl | (simp [kontLock] at hlock)
+      have := hsok.2; rw [hp, isHop_yielded] at this; rw [hhop]; exact this
+    · have := hsok.2; rw [hp, isHop_want] at this; exact this
+  exact (RU lt c.P t { stepSt c t th with evs := [] } k (stepHeld th) (holeOf c.threads) hdel hk.kp
+    ⟨hS.tree, hS.order, hS.pad⟩ hko hcur hkpre hcov hk.kinv.ord hkpos).1.eff
+
+/-- **a scheduler step keeps the linearizability invariant** (no Delete) -/
+theorem step_lininv (RU : ResumeKU K V) (lt : K → K → Bool) (init : List (K × V)) (c c' : Config K V) (t : Nat)
+    (hstep : c.step t = some c') (hk : KCInv lt c) (h : List (HEv K V)) (hl : LinInv lt init c h) :
+    ∃ h', LinInv lt init c' h' :=
+  step_lininv_gen lt init c c' t hstep hk.cinv (stepEff_nodel RU lt c t hk) h hl
 
 /-- concurrent Insert/Update/Search (and cursor sessions alongside) are linearizable -/
 theorem linearizable_nodelete (RU : ResumeKU K V) (lt : K → K → Bool) (P : Params K) (tree : Tree K V)
